@@ -103,7 +103,9 @@ def judge_standalone(src, R, S, geo, E, a, b):
   info = {"inside": len(inside), "outside": len(outside), "late": len(late)}
   if not missing and not added and not survivors and not stub_changed:
     return {"status": "ok", **info}
-  keys = od.classify_standalone(geo, E, a, b, missing, added, stub_changed, survivors)
+  keys = od.classify_standalone(geo, E, a, b, missing, added, stub_changed, survivors,
+                                inside=sorted(inside_shifted, key=lambda t: (t[1] or 0, t[0], t[2])),
+                                unshift={shift(l): l for l in range(1, len(src.split(chr(10))) + 2)})
   wit = {"kind": "standalone", "src": src, "E": E, "a": a, "b": b, "edited": new, "report": R,
          "report_after": R2, "expected_after": exp, "extra_removed_or_moved": missing, "added": added,
          "not_silenced": survivors, "stub_changed": stub_changed, "filter_log": od.MON.filter_log[-60:],
